@@ -229,4 +229,33 @@ theorem exactEnv_exact (n : ℕ) (A : Mat) (b : Vec) (tol : ℚ) (mi fu : ℕ) (
     intro j _
     by_cases hj : inF j = true <;> simp [hj]
 
+/-- **Completeness of the certificate**: every symmetric positive-definite matrix is certified. -/
+theorem spd_spdCert (n : ℕ) (A : Mat) (hA : SPD (toMat n A)) : spdCert n A = true := by
+  obtain ⟨hsym, hpd⟩ := (spd_iff n A).mp hA
+  have hS : (List.range n).Nodup := List.nodup_range
+  have hn : ∀ i ∈ List.range n, i < n := fun i hi => List.mem_range.mp hi
+  obtain ⟨R', ps, hrun, hpos⟩ := pd_fgj (k := (List.range n).length) (List.range n).length 0
+    (sysF A (fun _ => 0) (List.range n)) (by omega) (symOn_sub _ hn hsym) (pdOn_sub _ hS hn hpd)
+  rw [← List.range_eq_range'] at hrun
+  unfold spdCert
+  rw [Bool.and_eq_true]
+  constructor
+  · unfold isSymm
+    rw [List.all_eq_true]; intro i hi
+    rw [List.all_eq_true]; intro j hj
+    simpa using hsym i j (Nat.zero_le _) (List.mem_range.mp hi) (Nat.zero_le _) (List.mem_range.mp hj)
+  · have hM : (((List.range n).map fun r => (((List.range n).map fun c => A r c) ++ [0]).toArray).toArray)
+        = sysMat A (fun _ => 0) (List.range n) := rfl
+    rw [hM, gaussJordan_eq]
+    have hrel := sysMat_rel A (fun _ => 0) (List.range n)
+    rcases gj_bridge (List.range (List.range n).length) _ _ [] hrel (fun c hc => List.mem_range.mp hc) with
+      ⟨_, h2⟩ | ⟨R, R'', ps', h1, h2, _⟩
+    · rw [hrun] at h2; simp at h2
+    · rw [List.length_range] at h1
+      rw [h1]
+      rw [hrun] at h2
+      simp only [Option.some.injEq, Prod.mk.injEq] at h2
+      simp only [List.nil_append, List.all_eq_true, decide_eq_true_eq]
+      rw [← h2.2]; exact hpos
+
 end PsV.Nnls
